@@ -341,3 +341,118 @@ class UnrollMixin:
                     yield Outcome('fall', None, out.state)
                 else:
                     yield out
+
+
+# ====================================================================== one symbolic iteration
+class LoopRecord:
+    """What one symbolic iteration of a loop did."""
+
+    def __init__(self, node, entry_state, carried, iter_value, elem):
+        self.node = node
+        self.line = node.lineno
+        self.entry = entry_state          # state at loop entry (before symbolising)
+        self.carried = carried            # names / self-fields re-assigned in the loop
+        self.iter_value = iter_value      # abstract value iterated over (for loops)
+        self.elem = elem                  # abstract element bound to the target
+        self.bodies = []                  # Outcome list of one iteration from the symbolic state
+        self.sym_in = {}                  # name -> symbol standing for "value at iteration start"
+        self.sym_out = {}                 # name -> symbol standing for "value after the loop"
+
+
+class OneIterMixin:
+    """Hooks mixin: every `for` loop over a non-literal iteration space (and every `while` loop)
+    is interpreted for ONE iteration from a state in which the loop-carried variables are fresh
+    symbols `<name>@<line>in`; the iteration's outcomes are recorded in `self.loop_records`; the
+    code after the loop continues from a state in which they are fresh symbols `<name>@<line>out`.
+    Effects of the iteration are kept (prefixed by a 'loop-enter' and followed by a 'loop-exit'
+    effect).  `returns` inside the body propagate.  A rule then states the inductive step over the
+    recorded iteration instead of pattern-matching the loop."""
+
+    def init_one_iter(self, elem_for=None):
+        self.loop_records = []
+        self.elem_for = elem_for or {}
+
+    def carried_symbol(self, name, cur, line, tag):
+        from .interp import Opaque, type_of
+        if isinstance(cur, Sym) or cur is None:
+            return Sym.var('%s@%d%s' % (name, line, tag))
+        t = type_of(cur)
+        return Opaque('%s@%d%s' % (name, line, tag), (), t if t in ('str', 'bytes', 'list', 'tuple',
+                                                                  'int') else 'unknown')
+
+    def one_iter_loop(self, interp, node, st):
+        from .interp import Outcome, Opaque, Effect, Tup
+        if isinstance(node, ast.For):
+            vals = list(interp.ev(node.iter, st))
+            if len(vals) != 1 or vals[0][1].raised:
+                return None
+            it, s0 = vals[0]
+            if interp.literal_items(it) is not None and len(interp.literal_items(it)) <= 64:
+                return None            # literal space: the interpreter unrolls it exactly
+        else:
+            it, s0 = None, st
+        names, fields = assigned_names(node)
+        if isinstance(node, ast.For):
+            for t in ast.walk(node.target):
+                if isinstance(t, ast.Name):
+                    names.discard(t.id)
+        rec = LoopRecord(node, s0, (sorted(names), sorted(fields)), it, None)
+        s = s0.copy()
+        for n in sorted(names):
+            if n in s0.env:
+                rec.sym_in[n] = self.carried_symbol(n, s0.env[n], node.lineno, 'in')
+                s.env[n] = rec.sym_in[n]
+        for f in sorted(fields):
+            cur = s0.fields.get(('self', f))
+            rec.sym_in['self.' + f] = self.carried_symbol('self.' + f, cur, node.lineno, 'in')
+            s.fields[('self', f)] = rec.sym_in['self.' + f]
+        s = s.effect(Effect('loop-enter', node.lineno, (), node.lineno, interp.cur.qualname))
+        starts = []
+        if isinstance(node, ast.For):
+            elem = self.elem_for.get(node.lineno)
+            if callable(elem):
+                elem = elem(it)
+            if elem is None and hasattr(self, 'make_elem'):
+                elem = self.make_elem(node, it, s)
+            if elem is None:
+                elem = Opaque('elem@%d' % node.lineno, (it,))
+            rec.elem = elem
+            starts = list(interp.assign(node.target, elem, s))
+        else:
+            for c, s1 in interp.ev_cond(node.test, s):
+                for b, s2 in interp.branch(c, s1):
+                    if b:
+                        starts.append(s2)
+        res = []
+        after_effects = []
+        for s1 in starts:
+            for out in interp.exec_block(node.body, s1):
+                rec.bodies.append(out)
+                if out.kind in ('return', 'raise'):
+                    res.append(out)
+                after_effects.append(out.state.effects)
+        self.loop_records.append(rec)
+        # state after the loop
+        s_out = s0.copy()
+        # keep the effects of the longest iteration path so that later rules see them in order
+        if after_effects:
+            s_out.effects = max(after_effects, key=len)
+        for n in sorted(names):
+            if n in s0.env or any(n in o.state.env for o in rec.bodies):
+                cur = s0.env.get(n)
+                if cur is None:
+                    for o in rec.bodies:
+                        if n in o.state.env:
+                            cur = o.state.env[n]
+                rec.sym_out[n] = self.carried_symbol(n, cur, node.lineno, 'out')
+                s_out.env[n] = rec.sym_out[n]
+        for f in sorted(fields):
+            cur = s0.fields.get(('self', f))
+            rec.sym_out['self.' + f] = self.carried_symbol('self.' + f, cur, node.lineno, 'out')
+            s_out.fields[('self', f)] = rec.sym_out['self.' + f]
+        s_out = s_out.effect(Effect('loop-exit', node.lineno, (), node.lineno, interp.cur.qualname))
+        if node.orelse:
+            res.extend(interp.exec_block(node.orelse, s_out))
+        else:
+            res.append(Outcome('fall', None, s_out))
+        return res
